@@ -100,7 +100,7 @@ def py_floordiv(a, b):
     return z3.If(b > 0, a / b, (-a) / (-b))
 
 
-_DUNDER = {'Div': '__truediv__', 'Add': '__add__', 'Sub': '__sub__', 'Mult': '__mul__'}
+_DUNDER = {'Div': '__truediv__', 'Add': '__add__', 'Sub': '__sub__', 'Mult': '__mul__', 'Pow': '__pow__'}
 
 
 def binop(eng, op, a, b):
